@@ -1240,6 +1240,14 @@ br_ssl_engine_recvrec_ack(br_ssl_engine_context *cc, size_t len)
 			br_ssl_engine_fail(cc, BR_ERR_UNEXPECTED);
 			break;
 		}
+	} else if (cc->application_data == 2) {
+		/*
+		 * We are closing, and this call yielded no payload; it
+		 * may have completed an empty record, which releases a
+		 * shared buffer: the closing handshake may be waiting
+		 * for exactly that to send its close_notify.
+		 */
+		jump_handshake(cc, 0);
 	}
 }
 
